@@ -16,8 +16,11 @@ Set iteration (every enumeration order of a Python set is a legal behaviour):
 * `inRefOrder_perm_invariant`      the same for any reference sequence
 * `sorted_perm_invariant`          `sorted(S)` (order restored by sorting)
 * `append_perm_invariant_partial`  `for p in S: out.append(…)` when S has at most one member
-* `append_perm_invariant_refuted`  the full statement for appending loops is FALSE — genuine defect
-                                   of /repo (`for pname in call_param_names`, finding F-C14-2)
+* `append_perm_invariant_refuted`  the full statement for appending loops over a set is FALSE — genuine defect
+                                   F-C14-2 of /repo (`for pname in call_param_names`), demonstrated on the real
+                                   code and fixed there by 8f5c416; the fixed loop (`for pname in literal_map:
+                                   if pname not in call_param_names: continue`) is `inRefOrder_perm_invariant`
+* `append_refOrder_invariant`      full strength for the fixed code: appending in reference order
 * `refresh_perm_invariant_partial` the shape refresh, when no visited node feeds a visited node
 * `refresh_perm_invariant_refuted` the full statement for the shape refresh in SET order is FALSE (two-level
                                    DAG, two orders, two annotations) — genuine defect F-C14-1 of /repo,
@@ -207,8 +210,8 @@ theorem append_perm_invariant_partial {α β : Type} (f : α → β) (l l' : Lis
 example : visit (appendStep (fun s : String => s ++ "!")) ["x"] ["alpha"] = ["x", "alpha!"] := by decide
 
 /-- **Refuted full statement.** Appending in enumeration order is order-dependent: this is the
-    behaviour of the unchanged /repo for `call_param_names` (finding F-C14-2: the order of the
-    graph inputs added for call parameters follows the string hash seed). -/
+    behaviour of /repo up to dfda5c9 for `call_param_names` (finding F-C14-2: the order of the
+    graph inputs added for call parameters followed the string hash seed; fixed by 8f5c416). -/
 theorem append_perm_invariant_refuted :
     ¬ (∀ (l l' : List String) (acc : List String), l.Perm l' →
         visit (appendStep id) acc l = visit (appendStep id) acc l') := by
@@ -216,6 +219,17 @@ theorem append_perm_invariant_refuted :
   have h := hall ["alpha", "beta"] ["beta", "alpha"] [] (List.Perm.swap _ _ _)
   revert h
   decide
+
+/-- **Full strength for the fixed code (8f5c416).** `for pname in literal_map: if pname in
+    call_param_names: out.append(…)`: the appended sequence does not depend on how the set
+    enumerates, for any number of parameters. -/
+theorem append_refOrder_invariant {α β : Type} [BEq α] (f : α → β) (ref s s' : List α) (acc : List β)
+    (h : s.Perm s') :
+    visit (appendStep f) acc (inRefOrder ref s) = visit (appendStep f) acc (inRefOrder ref s') := by
+  rw [inRefOrder_perm_invariant ref s s' h]
+
+example : visit (appendStep id) ["in_0"] (inRefOrder ["deterministic", "training"] ["training", "deterministic"])
+    = ["in_0", "deterministic", "training"] := by decide
 
 /-! ## The shape refresh of the multi-transpose fold -/
 
